@@ -146,11 +146,12 @@ func (vt *v2T) scenC01() {
 }
 
 // Composite user documents and documents registered late.
-//   D(a,b) = words of a ++ first half of b, a few words replaced.  In "a <one short junk line> b" D's candidate spans a and
-//   half of b at a confidence below 1: it line-contains a with more weighted tokens (a proposal to evict a) and is itself
-//   rejected because it partially overlaps the retained b -- a and b must both be reported (retain loop: proposals of a
-//   rejected candidate are void).
-//   Late documents are registered after the classifier has served calls, and must be found like any other.
+//
+//	D(a,b) = words of a ++ first half of b, a few words replaced.  In "a <one short junk line> b" D's candidate spans a and
+//	half of b at a confidence below 1: it line-contains a with more weighted tokens (a proposal to evict a) and is itself
+//	rejected because it partially overlaps the retained b -- a and b must both be reported (retain loop: proposals of a
+//	rejected candidate are void).
+//	Late documents are registered after the classifier has served calls, and must be found like any other.
 func (vt *v2T) scenC01Composite() {
 	for ci, thr := range []float64{0.8, 0.7, 0.9} {
 		c := vt.build(fmt.Sprintf("c01c_%d", ci), thr, nil)
